@@ -514,7 +514,8 @@ class Ctx:
                            "seed": self.seed, "tier": self.tier}, f, indent=1, default=str)
             out_lines.append(f"VIOLATION property={self.prop} replay={path}")
             exit_code = 1
-        if self.broken and not self.violations:
+        if self.broken and not unlisted:
+            # (a violation that is a LISTED known finding explains nothing about a tie or proof that no longer checks)
             # the tie or a proof obligation no longer checks and the search found no failing input
             what = {"proof_broken": (self.proof or {}).get("broken", []),
                     "correspondence_broken": self.corr_breaks[:5],
@@ -527,10 +528,7 @@ class Ctx:
                            "seed": self.seed, "tier": self.tier}, f, indent=1, default=str)
             out_lines.append(f"VIOLATION property={self.prop} replay={path} no-failing-input-found")
             exit_code = 1
-        elif self.broken and not unlisted:
-            # broken only in ways explained by listed known findings: still say what broke
-            self.notes.append("tie/proof broken only on inputs of listed known findings")
-        self.write_evidence(len(unlisted) + (1 if (self.broken and not self.violations) else 0))
+        self.write_evidence(len(unlisted) + (1 if (self.broken and not unlisted) else 0))
         for l in out_lines:
             print(l)
         sys.stdout.flush()
